@@ -6,3 +6,5 @@ def check(rep, tier):
     from contracts import tracer_ftba, tracer_trace
     tracer_trace.run(rep, tier, interfere=False)
     tracer_ftba.run(rep, tier, clauses=("FT4",))
+    from contracts import discipline
+    discipline.run_frame(rep, tier)
